@@ -24,7 +24,8 @@ def draw_profile(r, family='ref', **force):
     p['size'] = r.choice((6, 10, 16, 24, 34))
     p['depth'] = r.choice((1, 2, 2, 3))
     p['edepth'] = r.choice((1, 2, 2, 3))
-    p['onerror_mode'] = r.choice(('goto_next', 'goto_next', 'resume_next', 'goto_end', 'goto_reraise'))
+    p['onerror_mode'] = r.choice(('goto_next', 'goto_next', 'resume_next', 'goto_end', 'goto_reraise') +
+                                 (('goto_return',) if family == 'any' else ()))
     p['plant'] = r.random() < 0.35
     p['fold_heavy'] = r.random() < 0.25
     p['final_newline'] = r.random() < 0.8
@@ -1644,7 +1645,7 @@ class Gen:
                     and not (p.get('recursive') and q is p['params'][0])]
             if cand:
                 r.choice(cand)[0] = n
-        if onerr in ('goto_next', 'goto_end', 'goto_resume', 'goto_reraise'):
+        if onerr in ('goto_next', 'goto_end', 'goto_resume', 'goto_reraise', 'goto_return'):
             hl = self.fresh('hnd')
             main.append({'k': 'onerr', 'mode': 'goto', 'label': hl})
         elif onerr == 'resume_next':
@@ -1736,6 +1737,10 @@ class Gen:
             self.plants.append(st)
             if self.last_repairs:
                 all_repairs += self.last_repairs
+        if subs and r.random() < 0.5:
+            # every routine is called at least once from the top level
+            for lab in subs:
+                body.insert(r.randint(0, len(body)), {'k': 'gosub', 'label': lab})
         main += body
         if onerr and r.random() < 0.3:
             main.append({'k': 'onerr', 'mode': 'off'})
@@ -1765,6 +1770,13 @@ class Gen:
                 main.append({'k': 'ifl', 'cond': ['bin', '<', ['var', gq], ['lit', '%', 3]],
                              'then': [{'k': 'gosub', 'label': lab}], 'els': None})
             main += self.block(sc, r.randint(1, 3), 1)
+            if self.procs and r.random() < 0.4:
+                # a procedure called while the GOSUB is pending (an error in it
+                # reaches the handler with a return address below the call)
+                self.stmt_budget = 2
+                c = self.call_stmt(sc)
+                if c is not None:
+                    main.append(c)
             if i == len(subs) - 1 and not hl and not self.data_items and r.random() < 0.15:
                 # the last routine runs into the end of the program instead of
                 # RETURNing (legal: the program just ends)
@@ -1795,6 +1807,10 @@ class Gen:
             elif onerr == 'goto_reraise':
                 main.append({'k': 'onerr', 'mode': 'off'})
                 main.append({'k': 'end'})
+            elif onerr == 'goto_return':
+                # a handler that never resumes: it RETURNs (from the GOSUB
+                # routine the error happened in, if there is one)
+                main.append({'k': 'return'})
             else:
                 main.append({'k': 'end'})
         if self.data_items:
